@@ -19,6 +19,16 @@ BUILT = {
         design="DESIGN.md section 6 C01",
         technique="TLA+ spec (PyVal/Cond/Dsl) model-checked with TLC + TLC trace validation of recorded real calls",
     ),
+    "C02": dict(
+        text=("The condition/part heap machine (spec/CondHeap.tla: Combine with null short-circuit, part constructors, "
+              "on-the-fly combination in MapOrListValue.filter) is model-checked exhaustively on a bounded instance for "
+              "Immutable (action property), Acyclic, Pointwise and NullIdentity, with the as-coded re-initialisation "
+              "switch rejected; every behaviour TLC enumerates (exhaustive depth 2, simulated deeper) is replayed step by "
+              "step into real objects comparing identity structure, projections, attribute writes and filter results of "
+              "every live object; seeded random trees built with the real operators are judged by the TLC acceptor."),
+        design="DESIGN.md section 6 C02",
+        technique="TLA+ heap state machine model-checked with TLC + TLC-generated behaviours replayed into the real objects + TLC trace validation",
+    ),
 }
 
 
